@@ -210,7 +210,7 @@ CHECKS = {
             "(at equality the timer's Timeout, scheduled earlier, wins the same-instant race against the ACK: a real boundary). Trusted besides the common base: Timer per C19, kernel order per C01, CUBIC cnt oracle. Repairs: 4cddda4 "
             "(sink), 5f98ada, 5f6e664 (sender).",
             "DESIGN.md section 4 C16, section 8"),
-    "C17": ("35 theorems about the Gallina model of TCPPacketGenerator.put/timeout_callback/run and CongestionControl/TCPReno/TCPCubic: "
+    "C17": ("38 theorems about the Gallina model of TCPPacketGenerator.put/timeout_callback/run and CongestionControl/TCPReno/TCPCubic: "
             "send guard and consecutive MSS numbering, window respected at every emission, only a wake-up sends new data, Reno/CUBIC ACK "
             "rules, early duplicates, fast retransmit (ssthresh = max(2 MSS, cwnd/2), cwnd = ssthresh + 3 MSS), further duplicates, "
             "deflate-then-count and no deflation before the third duplicate (the pinned behaviour refuted), timeout rule, RTO formula "
@@ -221,8 +221,9 @@ CHECKS = {
             "TCPCubic is modelled exactly over Q (Tcp/Cubic.v: C = 2/5, beta = 1/5, (t-K)^3 as an integer power; the cube-root branch is "
             "proved unreachable because W_last_max is only ever 0): C17_cubic_growth_rule, epoch_start_rule, slow_start_rule, "
             "cubic_new_ack_rule with the computed cnt; cnt is compared within a relative 1e-5 (max_cnt = cwnd/(W_tcp - cwnd) is "
-            "ill-conditioned in binary64), W_tcp within 1e-9. The translated-body tie covers CongestionControl and TCPReno, not yet the "
-            "TCPCubic methods. Float-valued fields are compared within a relative 1e-12 per "
+            "ill-conditioned in binary64), W_tcp within 1e-9. The translated-body tie covers CongestionControl, TCPReno and the TCPCubic methods (C17_gen_cubic_*: `**3` as repeated "
+            "multiplication, any other `**` fails closed); the estimator lines and the dupack bookkeeping inside put() are tied by "
+            "correspondence and monitor only. Float-valued fields are compared within a relative 1e-12 per "
             "transition from the observed pre-state; theorems are over Q. The translator (props/tcp_common.translate_cc) is part of the "
             "trusted base of this property; a harmless rewrite of a translated method makes the bridging obligations fail "
             "(reported no-failing-input-found). Repair: eae436e.",
